@@ -41,7 +41,7 @@ ANCHORS = [
     "quara/minimization_algorithm/projected_gradient_descent.py:ProjectedGradientDescent.set_constraint_from_standard_qt_and_option",
 ]
 REQUIRED_REACH = ANCHORS
-REQUIRED_ORACLES = ["trace:loss-non-increasing", "trace:armijo", "trace:iterates-feasible", "trace:step-recurrence",
+REQUIRED_ORACLES = ["estimator:returns-algorithm-value", "trace:loss-non-increasing", "trace:armijo", "trace:iterates-feasible", "trace:step-recurrence",
                     "trace:error-values-match-mode", "trace:stops-iff-criterion", "trace:direction-is-projected-gradient",
                     "pgdb:optimal:reference-solver", "pgdb:optimal:random-physical", "pgdb:optimal:feasible-direction",
                     "cvxpy:optimal:reference-solver", "cvxpy:optimal:random-physical", "agree:loss", "agree:point",
@@ -220,25 +220,46 @@ def solve_reference(model, fam, q):
 
 # ===================================================================== tolerances (loss units)
 
-# worst optimality gap L(estimate) - L(best competitor) seen on the unchanged tree (3 seeds, both tiers), per
-# (loss family, stopping mode, eps, data regime); tol_pass = 100 x, tol_fail = 1e4 x, never above 1e-3 L(start).
-# Cells not listed fall back to the family/regime default.  (Povm with on_para_eq_constraint=True is excluded from the
-# calibration: there the algorithm converges to a non-optimal point, see the report.)
-WORST = {}
-WORST_DEFAULT = {("se", "sampled"): 1e-9, ("se", "exact"): 1e-9, ("re", "sampled"): 1e-8, ("re", "exact"): 1e-8}
-GAP_FLOOR = 1e-11
+# Worst optimality gap  L(estimate) - L(best competitor)  of criterion-terminated runs seen on the unchanged tree
+# (seeds 0,1,2 quick + thorough seed 0; State / Povm / Gate, both flags, sampled and exact data), per
+# (loss family, stopping mode, eps).  Povm with >= 3 outcomes and on_para_eq_constraint=True is excluded from the
+# calibration: there the run stops at a non-optimal point (gaps 1e-4 .. 1e-1), which is what the oracle reports.
+WORST = {
+    ("re", "single_difference_loss", "1e-10"): 1.6e-07,
+    ("re", "single_difference_loss", "default"): 1.9e-07,
+    ("re", "sum_absolute_difference_loss", "1e-10"): 2.5e-07,
+    ("re", "sum_absolute_difference_loss", "default"): 2.5e-07,
+    ("re", "sum_absolute_difference_projected_gradient", "1e-05"): 2.2e-09,
+    ("re", "sum_absolute_difference_projected_gradient", "1e-07"): 3.2e-13,
+    ("re", "sum_absolute_difference_variable", "1e-05"): 1.2e-06,
+    ("re", "sum_absolute_difference_variable", "1e-07"): 2.5e-07,
+    ("se", "single_difference_loss", "1e-10"): 2.5e-08,
+    ("se", "single_difference_loss", "default"): 1.1e-08,
+    ("se", "sum_absolute_difference_loss", "1e-10"): 3.8e-08,
+    ("se", "sum_absolute_difference_loss", "default"): 1.1e-08,
+    ("se", "sum_absolute_difference_projected_gradient", "1e-05"): 1.0e-08,
+    ("se", "sum_absolute_difference_projected_gradient", "1e-07"): 1.1e-08,
+    ("se", "sum_absolute_difference_variable", "1e-05"): 3.3e-08,
+    ("se", "sum_absolute_difference_variable", "1e-07"): 8.8e-09,
+}
+# cells with few criterion-terminated runs (or options outside the calibrated grid) get at least the family's level
+WORST_FLOOR = {"se": 1e-8, "re": 5e-8}
+WORST_UNKNOWN = {"se": 5e-8, "re": 1.5e-6}
 
 
 def eps_label(eps):
-    return "default" if eps is None else f"{eps:.0e}"
+    return "default" if eps is None or abs(eps - 1e-14) < 1e-20 else f"{eps:.0e}"
 
 
-def pgdb_tol(fam, mode, eps_lab, regime, L_start):
-    w = WORST.get((fam, mode, eps_lab, regime), WORST_DEFAULT[(fam, regime)])
-    w = max(w, GAP_FLOOR)
-    tp, tf = 100 * w, 1e4 * w
-    cap = 1e-3 * L_start
-    return tp, tf, cap
+def pgdb_tol(fam, mode, eps_lab, L_start):
+    """(tol_pass, tol_fail) in loss units: tol_pass = 100 x worst observed, tol_fail = 1e4 x worst observed but not above
+    1e-3 L(start) (a run must at least achieve 99.9 % of the attainable reduction) -- and never below 100 x worst
+    observed, so that no calibrated behaviour can raise an alarm on a flat problem; tol_pass <= tol_fail / 100."""
+    w = WORST.get((fam, mode, eps_lab))
+    w = WORST_UNKNOWN[fam] if w is None else max(w, WORST_FLOOR[fam])
+    tf = min(1e4 * w, max(1e-3 * L_start, 100 * w))
+    tp = min(100 * w, tf / 100)
+    return tp, tf
 
 
 SCS_TOL = (1e-6, 1e-4)  # SCS with eps = 1e-9
@@ -300,7 +321,7 @@ class DataSet:
         return min(vals) if vals else None
 
 
-def judge_gap(ctx, who, key, ds, fam, v_hat, tp, tf, cap, rng, info, plin_fn=None):
+def judge_gap(ctx, who, key, ds, fam, v_hat, tp, tf, rng, info, plin_fn=None):
     """optimality of the estimate v_hat (variable vector): no competitor and no feasible direction does better.
     Returns the gap against the best competitor (None when nothing could be judged)."""
     md = ds.model
@@ -312,11 +333,6 @@ def judge_gap(ctx, who, key, ds, fam, v_hat, tp, tf, cap, rng, info, plin_fn=Non
             ctx.skip(f"{who}:optimal:{n}")
         ctx.count("estimate-in-clipping-region")
         return None
-    if tf > cap:
-        # the problem is too flat for the calibrated tolerance (start already nearly optimal): undecidable
-        tf_eff, decidable = tf, False
-    else:
-        tf_eff, decidable = tf, True
     L_hat = L.value_p(p_hat)
     comp = ds.competitors(fam, rng, plin_fn)
     s_hat = md.stack(v_hat)
@@ -329,10 +345,7 @@ def judge_gap(ctx, who, key, ds, fam, v_hat, tp, tf, cap, rng, info, plin_fn=Non
             continue
         g = max(L_hat - ds.L_s(fam, z) for z in zs)
         worst_all = max(worst_all, g)
-        if not decidable and g > tp:
-            ctx.skip(f"{who}:optimal:{n}")
-        else:
-            ctx.num(f"{who}:optimal:{n}", max(g, 0.0), tp, tf_eff, key=key, info=dict(info, competitor=n, gap=g, L_estimate=L_hat))
+        ctx.num(f"{who}:optimal:{n}", max(g, 0.0), tp, tf, key=key, info=dict(info, competitor=n, gap=g, L_estimate=L_hat))
         # feasible directions: points on the segment from the estimate toward each competitor
         for z in zs:
             for tt in (0.5, 0.1, 1e-2, 1e-3):
@@ -342,10 +355,8 @@ def judge_gap(ctx, who, key, ds, fam, v_hat, tp, tf, cap, rng, info, plin_fn=Non
                 worst_dir = max(worst_dir, L_hat - L.value_p(pz))
     if worst_dir == -np.inf:
         ctx.skip(f"{who}:optimal:feasible-direction")
-    elif not decidable and worst_dir > tp:
-        ctx.skip(f"{who}:optimal:feasible-direction")
     else:
-        ctx.num(f"{who}:optimal:feasible-direction", max(worst_dir, 0.0), tp, tf_eff, key=key,
+        ctx.num(f"{who}:optimal:feasible-direction", max(worst_dir, 0.0), tp, tf, key=key,
                 info=dict(info, competitor="segment toward a competitor", gap=worst_dir, L_estimate=L_hat))
     return max(worst_all, worst_dir)
 
@@ -728,7 +739,7 @@ def run_shard(ctx):
             md = ds.model
             v_hat = np.asarray(result.estimated_var_sequence[i], dtype=np.float64)
             mode = algo_option.mode_stopping_criterion_gradient_descent
-            el = "default" if abs(algo_option.eps - 1e-14) < 1e-20 else f"{algo_option.eps:.0e}"
+            el = eps_label(algo_option.eps)
             tdesc = md.t if md.t != "Povm" else ("Povm(m=2)" if md.m == 2 else "Povm(m>=3)")
             key = f"pgdb:{tdesc}:on_para_eq_constraint={md.flag}:{fam_}:{mode}:estimate-is-not-a-minimiser"
             info = {"type": md.t, "flag": md.flag, "loss": type(loss).__name__, "mode": mode, "eps": algo_option.eps,
@@ -756,8 +767,8 @@ def run_shard(ctx):
                 ctx.count("estimates-not-stopped-by-criterion")
                 continue
             L_start = ds.L_v(fam_, np.asarray(det[i].x[0], dtype=np.float64))
-            tp, tf, cap = pgdb_tol(fam_, mode, el, ds.regime, L_start)
-            gap = judge_gap(ctx, "pgdb", key, ds, fam_, v_hat, tp, tf, cap, st["rng"], dict(info, L_start=L_start),
+            tp, tf = pgdb_tol(fam_, mode, el, L_start)
+            gap = judge_gap(ctx, "pgdb", key, ds, fam_, v_hat, tp, tf, st["rng"], dict(info, L_start=L_start),
                             plin_fn_for(qtomography, empi))
             rec.update(judged=gap is not None, gap=gap, ok=(gap is not None and gap < tf), tp=tp, tf=tf, L_start=L_start, k=det[i].k)
             if gap is not None:
@@ -787,7 +798,7 @@ def run_shard(ctx):
             key = f"cvxpy-scs:{md.t}:{fam_}:estimate-is-not-a-minimiser"
             info = {"type": md.t, "flag": md.flag, "loss": lname, "eps_tol": algo_option.eps_tol, "regime": ds.regime}
             L_start = ds.L_s(fam_, md.centre)
-            gap = judge_gap(ctx, "cvxpy", key, ds, fam_, v_hat, tp, tf, np.inf, st["rng"], info, plin_fn_for(qtomography, empi))
+            gap = judge_gap(ctx, "cvxpy", key, ds, fam_, v_hat, tp, tf, st["rng"], info, plin_fn_for(qtomography, empi))
             e1, e2 = refopt.violations(md.t, md.B, md.d, md.m, md.stack(v_hat))
             ctx.num("cvxpy:estimate-feasible", max(e1, e2), tp, tf, key=f"cvxpy-scs:{md.t}:{fam_}:estimate-not-physical", info=dict(info, eq=e1, ineq=e2))
             # reported loss = the cvxpy loss (schedule weights N_j/N) at the returned point
@@ -904,10 +915,6 @@ def run_shard(ctx):
                     Lp, Lv = ds.L_v(fam, run["v"]), ds.L_v(fam, cv["v"])
                     tp = run["tp"] + SCS_TOL[0]
                     tf = max(run["tf"] + SCS_TOL[1], 100 * tp)
-                    if run["tf"] > 1e-3 * run["L_start"]:
-                        ctx.skip("agree:loss")
-                        ctx.skip("agree:point")
-                        continue
                     info = {"type": t, "loss": run["loss_name"], "mode": run["mode"], "eps": run["eps"], "L_pgdb": Lp, "L_cvxpy": Lv}
                     ctx.num("agree:loss", abs(Lp - Lv), tp, tf, key=f"pgdb-vs-cvxpy-scs:{t}:{fam}:{run['mode']}:losses-differ", info=info)
                     if fam == "se" and md.sigma_min > 1e-3:
